@@ -6,7 +6,7 @@
 
 package casket
 
-//@ unit execute_directives frames=on props=C09 filter=`casket\.executeDirectives$`
+//@ unit execute_directives frames=on props=C09,C11,C16 filter=`casket\.executeDirectives$`
 //@ ghost lastDir int
 //@ spec idx(dirs []string, d string) int
 
@@ -22,6 +22,11 @@ package casket
 //@   requires forall(k, 0, len(directives), idx(directives, directives[k]) == k)
 //@   at call dynamic#1 assert [ordered] idx(directives, dir) >= lastDir
 //@   at call dynamic#1 do lastDir = idx(directives, dir)
+//@   // C11 "-validate and a real start agree": in BOTH modes a directive's setup is reached for the later keys of a server
+//@   // block too (a setup may accept the first key and refuse another); C16: the once-per-server-block guard is the one
+//@   // sync.Once declared per block in this function (a helper making its own would be a callee without contract)
+//@   at call dynamic#1 cover [setup_reached_for_later_keys_when_only_validating] justValidate && j >= 1
+//@   at call dynamic#1 cover [setup_reached_for_later_keys_when_starting] !justValidate && j >= 1
 //@   loop 1 invariant 0 <= #i && #i <= len(directives) && lastDir <= #i - 1 && storOK()
 //@   loop 2 invariant inOuter() && storOK() && 0 <= #i2 && #i2 <= len(sblocks)
 //@   loop 3 invariant inOuter() && storOK() && 1 <= #i2 && #i2 <= len(sblocks) && has(storages, #i2 - 1) && i == #i2 - 1
